@@ -13,6 +13,7 @@
 import json
 import os
 
+import _crypto
 import vlib
 
 
@@ -37,18 +38,7 @@ def run(c):
         args = ["-scn", scn, "-out", trace, "-k", 5 if c.thorough else 1]
         c.run_driver(drv, args + (["-canon"] if c.thorough else []))
     r = c.validate("DRKeyAdmitTrace", "DRKeyAdmitTrace.cfg", trace, timeout=1500)
-    lines = open(trace).read().splitlines()
-    conc = open(trace + ".conc").read().splitlines() if os.path.exists(trace + ".conc") else []
-    if r.done != len(lines):
-        raise vlib.Infra("trace validation consumed %s of %d lines\n%s" % (r.done, len(lines), r.out[-2000:]))
-    for (l, key) in r.bad:
-        p = os.path.join(c.scratch, "replay-%d.ndjson" % l)
-        with open(p, "w") as f:
-            f.write(lines[l - 1] + "\n")
-        c.report(key, "trace line %d: %s %s" % (l, lines[l - 1][:400], conc[l - 1] if l <= len(conc) else ""), p)
-    drift = set(m for m in __import__("re").findall(r'<<"VERIF-DRIFT", \d+, "([^"]*)">>', r.out))
-    for d in sorted(drift):
-        c.notes.append("MODEL-DRIFT " + d)
+    lines = _crypto.judge_cases(c, r, trace, vlib, sidecar=trace + ".conc")
     served = {}
     total = {}
     points = set()
